@@ -244,6 +244,18 @@ def _ms(rows):
     return Counter(util.crow(r) for r in rows)
 
 
+def _twice(build):
+    """rows of two passes over the same view: a selection must not change on a second pass"""
+    view = build()
+    first = util.attempt_rows(lambda: view)
+    if isinstance(first, util.Raised):
+        return first
+    second = util.attempt_rows(lambda: view)
+    if isinstance(second, util.Raised) or util.crows(second) != util.crows(first):
+        return util.Raised(AssertionError('second pass over the same view differs: first=%r second=%r' % (first, second)))
+    return first
+
+
 def _diff(name, got, exp_rows, hdr, extra=None):
     if isinstance(got, util.Raised):
         d = {'kind': 'exception', 'fn': name, 'detail': got.text, 'where': got.where}
@@ -295,7 +307,7 @@ def judge(case, ctx):
                 if bool(pred(v)) != comp:
                     exp.append(r)
         fn = getattr(petl, sel)
-        got = util.attempt_rows(lambda: fn(table, field, *_petl_args(sel, args), **kw))
+        got = _twice(lambda: fn(table, field, *_petl_args(sel, args), **kw))
         d = _diff(sel, got, exp, hdr, {'args': args, 'field': field, 'complement': comp})
         if d:
             out.append(d)
@@ -410,7 +422,7 @@ def judge(case, ctx):
     if sel == 'rowlenselect':
         exp = [r for r in rows if (len(r) == args[0]) != comp]
         mark(exp)
-        return _diff(sel, util.attempt_rows(lambda: petl.rowlenselect(table, args[0], **kw)), exp, hdr)
+        return _diff(sel, _twice(lambda: petl.rowlenselect(table, args[0], **kw)), exp, hdr)
 
     if sel in ('search', 'search-field', 'searchcomplement'):
         pat = args[0]
@@ -446,7 +458,7 @@ def judge(case, ctx):
             if q(p, r, n):
                 exp.append(r)
         mark(exp)
-        return _diff(sel, util.attempt_rows(lambda: petl.selectusingcontext(table, q)), exp, hdr)
+        return _diff(sel, _twice(lambda: petl.selectusingcontext(table, q)), exp, hdr)
 
     if sel == 'rowslice':
         a = list(args)
@@ -455,15 +467,15 @@ def judge(case, ctx):
         except ValueError:
             return None
         mark(exp)
-        return _diff(sel, util.attempt_rows(lambda: petl.rowslice(table, *a)), exp, hdr, {'args': a})
+        return _diff(sel, _twice(lambda: petl.rowslice(table, *a)), exp, hdr, {'args': a})
     if sel == 'head':
         exp = rows[:args[0]]
         mark(exp)
-        return _diff(sel, util.attempt_rows(lambda: petl.head(table, args[0])), exp, hdr)
+        return _diff(sel, _twice(lambda: petl.head(table, args[0])), exp, hdr)
     if sel == 'tail':
         exp = rows[len(rows) - args[0]:] if args[0] and args[0] < len(rows) else (rows if args[0] else [])
         mark(exp)
-        return _diff(sel, util.attempt_rows(lambda: petl.tail(table, args[0])), exp, hdr, {'n': args[0]})
+        return _diff(sel, _twice(lambda: petl.tail(table, args[0])), exp, hdr, {'n': args[0]})
     if sel == 'skip':
         allrows = [tuple(hdr)] + rows
         exp = allrows[args[0]:]
